@@ -20,6 +20,7 @@ func init() {
 	register(&Scenario{Prop: "C06", Name: "registry-inuse", Run: func(rc *RunCtx) { runRegistrySeq(rc, "C06") }})
 	register(&Scenario{Prop: "C06", Name: "registry-enum", Run: runRegistryEnum})
 	register(&Scenario{Prop: "C06", Name: "inuse-conc", Run: runInUseConc})
+	register(&Scenario{Prop: "C01", Name: "setup-conc", Run: runSetupConc})
 	register(&Scenario{Prop: "C07", Name: "registry-policy", Run: func(rc *RunCtx) { runRegistrySeq(rc, "C07") }})
 	register(&Scenario{Prop: "C20", Name: "registry-reopen", Run: func(rc *RunCtx) { runRegistrySeq(rc, "C20") }})
 	register(&Scenario{Prop: "C20", Name: "reopen-conc", Run: runReopenConc})
@@ -87,6 +88,8 @@ func (o regOp) String() string {
 		return "Reopen(" + strings.TrimPrefix(c, ",") + ")"
 	case "setthr":
 		return fmt.Sprintf("SetSuccessThreshold(%s,%d)", o.Typ, o.Thr)
+	case "setthrsinks":
+		return fmt.Sprintf("SetSuccessThresholdSinks(%s,%d)", o.Typ, o.Thr)
 	}
 	return o.Kind
 }
@@ -1094,5 +1097,136 @@ func runInUseConc(rc *RunCtx) {
 		case !v.listed && v.err != nil && !notFound:
 			rc.Failf("C06.pinned", "concurrent", "after concurrent removals no registered pipeline lists node %s (the probe Send did not reach it), yet RemoveNode refuses it: %v", id, v.err)
 		}
+	}
+}
+
+// ---- C01: the registry is BUILT by concurrent callers, then Sends on the quiet Broker ------
+//
+// Registrations of distinct pipelines (some for event types nobody has touched
+// before), threshold setters / getters and IsAnyPipelineRegistered calls for the same
+// types run at the same time. Every registration that returned nil is registered
+// "at that moment" for every later Send, whatever else ran beside it: the Sends made
+// after all calls returned must traverse exactly those pipelines.
+
+func runSetupConc(rc *RunCtx) {
+	tp := rc.Tape
+	sim := rc.Sim
+	types := []string{"ta", "tb", "tc"}
+	ids := []string{"f1", "f2", "m1", "m2", "k1", "k2"}
+	w := newRegWorld(sim, types, ids)
+	kinds := map[string]el.NodeType{"f1": el.NodeTypeFilter, "f2": el.NodeTypeFilter, "m1": el.NodeTypeFormatter, "m2": el.NodeTypeFormatterFilter, "k1": el.NodeTypeSink, "k2": el.NodeTypeSink}
+	for _, id := range ids {
+		if ms, _ := w.apply(regOp{Kind: "regnode", ID: id, NodeKind: int(kinds[id])}); len(ms) > 0 {
+			rc.Failf("C01.setup", "", "%s", ms[0].msg)
+			return
+		}
+	}
+	// some types are known before the concurrent phase, the others are first touched in it
+	var pre []string
+	for _, t := range types {
+		if tp.Choose(3, "pre-known") == 0 {
+			w.apply(regOp{Kind: "regpipe", Typ: t, PID: "pre", NodeIDs: []string{"m1", "k1"}})
+			pre = append(pre, t)
+		}
+	}
+	type cres struct {
+		op   regOp
+		err  error
+		done bool
+	}
+	var all []*cres
+	var tdesc [][]string
+	nT := 2 + tp.Choose(4, "ntasks")
+	pidSeq := 0
+	for t := 0; t < nT; t++ {
+		n := 1 + tp.Choose(3, "nops")
+		var mine []*cres
+		var d []string
+		for i := 0; i < n; i++ {
+			tp.Mark()
+			typ := types[tp.Choose(len(types), "type")]
+			var op regOp
+			switch tp.Choose(6, "op") {
+			case 0, 1, 2:
+				pidSeq++
+				var nids []string
+				for j, k := 0, tp.Choose(3, "nfilt"); j < k; j++ {
+					nids = append(nids, []string{"f1", "f2"}[tp.Choose(2, "filt")])
+				}
+				nids = append(nids, []string{"m1", "m2"}[tp.Choose(2, "fmt")], []string{"k1", "k2"}[tp.Choose(2, "sink")])
+				op = regOp{Kind: "regpipe", Typ: typ, PID: fmt.Sprintf("c%d", pidSeq), NodeIDs: nids}
+			case 3:
+				op = regOp{Kind: "setthr", Typ: typ, Thr: tp.Choose(3, "thr")}
+			case 4:
+				op = regOp{Kind: "setthrsinks", Typ: typ, Thr: tp.Choose(3, "thr")}
+			default:
+				op = regOp{Kind: []string{"getthr", "getthrsinks", "isany"}[tp.Choose(3, "getter")], Typ: typ}
+			}
+			r := &cres{op: op}
+			mine = append(mine, r)
+			all = append(all, r)
+			d = append(d, op.String()+" "+op.Typ)
+		}
+		tdesc = append(tdesc, d)
+		sim.Spawn(fmt.Sprintf("setup%d", t), func() {
+			simrt.Yield("setup:start")
+			for _, r := range mine {
+				et := el.EventType(r.op.Typ)
+				switch r.op.Kind {
+				case "regpipe":
+					nids := make([]el.NodeID, len(r.op.NodeIDs))
+					for i, s := range r.op.NodeIDs {
+						nids[i] = el.NodeID(s)
+					}
+					r.err = w.broker.RegisterPipeline(el.Pipeline{PipelineID: el.PipelineID(r.op.PID), EventType: et, NodeIDs: nids})
+				case "setthr":
+					r.err = w.broker.SetSuccessThreshold(et, r.op.Thr)
+				case "setthrsinks":
+					r.err = w.broker.SetSuccessThresholdSinks(et, r.op.Thr)
+				case "getthr":
+					w.broker.SuccessThreshold(et)
+				case "getthrsinks":
+					w.broker.SuccessThresholdSinks(et)
+				case "isany":
+					w.broker.IsAnyPipelineRegistered(et)
+				}
+				r.done = true
+				simrt.Yield("setup:between")
+			}
+		})
+	}
+	rc.Desc = map[string]interface{}{"known-before": pre, "tasks": tdesc}
+	rc.NonTrivial = true
+	sim.Run(nil)
+	if sim.Stuck {
+		rc.Failf("C01.stuck", stuckClass(sim), "concurrent setup did not finish: %s", strings.Join(sim.StuckInfo, "; "))
+		return
+	}
+	for _, r := range all {
+		if r.op.Kind != "regpipe" {
+			continue
+		}
+		if r.err != nil {
+			rc.Failf("C01.setup", "register-pipeline-conc", "%s failed (%v): a well-formed pipeline under a fresh id", r.op, r.err)
+			return
+		}
+		w.model.RegisterPipeline(r.op.Typ, r.op.PID, r.op.NodeIDs, "", false)
+	}
+	var ms []mismatch
+	probed := false
+	sim.Spawn("setup-probe", func() {
+		for _, t := range types {
+			ms = append(ms, w.sendProbe(t)...)
+		}
+		probed = true
+	})
+	sim.Run(nil)
+	if !probed {
+		rc.Failf("C01.stuck", "probe", "Sends after the concurrent setup did not finish: %s", strings.Join(sim.StuckInfo, "; "))
+		return
+	}
+	for _, m := range ms {
+		rc.Failf("C01.traversal", "after-concurrent-setup", "after every registration had returned: %s", m.msg)
+		return
 	}
 }
